@@ -30,6 +30,11 @@ inductive Root | global | param | call | alias | viaGlobal
 
 inductive Sync | none | mutex | syncMap | syncMapCasNil | syncMapLoad | once | nilGuardInit | nilGuardNoInit | nilGuardCtor | nilGuardField
   | mutexIfAbsent   -- under a mutex, `M[k] = v` only in the absent-branch of a lookup of M[k]: load-or-publish, FIRST writer wins
+  | syncMapLoadOrStore   -- sync.Map.LoadOrStore: publishes only when absent, the first writer wins (plain `syncMap`:
+                         -- Store / Swap / Delete …, unconditional, the LAST writer wins)
+  | payloadEscape   -- `C[k] = e`: an `any`-typed value taken out of the shared document (default / example / enum / extension),
+                    -- not copied, is stored into a caller-owned value: what the call later writes into that value is
+                    -- written into the document (F-C15-1 before its repair: `value[propName] = dflt`)
   | appendSpare     -- `append(s, …)` on a slice reachable from shared state: a PLAIN WRITE into the shared backing array whenever cap s > len s
   | appendClipped   -- `append(s[:n:n], …)` / `append(slices.Clip(s), …)`: cap = len, append reallocates, nothing shared is written
   deriving DecidableEq, Repr
@@ -416,10 +421,84 @@ theorem proj_map (i : Nat) : ∀ tr : Trace, proj i (mapTrace tr) = (proj i tr).
     simp only [mapTrace] at ih
     by_cases h : j = i <;> simp [mapTrace, proj, h, ih]
 
+/-! ## frames: what a thread never looks at does not matter -/
+
+/-- the cell an action touches -/
+def actCell : Act → Cell
+  | .read c | .write c _ | .cacheFill c _ | .lazyInit c _ | .syncStore c _ | .syncRead c | .cacheUse c _ | .fillUse c _ => c
+
+/-- states that agree on the cells of a frame -/
+def AgreeOn (F : List Cell) (σ τ : State) : Prop := ∀ c ∈ F, σ c = τ c
+
+theorem step_agreeOn (F : List Cell) (σ τ : State) (a : Act) (h : AgreeOn F σ τ) :
+    AgreeOn F (stepState σ a) (stepState τ a) := by
+  intro c hc
+  have hcc := h c hc
+  cases a <;> simp only [stepState] <;> first
+    | exact hcc
+    | (rename_i c' v; by_cases hx : c = c'
+       · subst hx; simp [hcc]
+       · simp [hx, hcc])
+
+theorem obs_agreeOn (F : List Cell) (σ τ : State) (a : Act) (h : AgreeOn F σ τ) (ha : actCell a ∈ F) :
+    stepObs σ a = stepObs τ a := by
+  cases a <;> simp only [stepObs, actCell] at * <;> simp [h _ ha]
+
+theorem step_outside (F : List Cell) (σ τ : State) (a : Act) (h : AgreeOn F σ τ) (ha : actCell a ∉ F) :
+    AgreeOn F (stepState σ a) τ := by
+  intro c hc
+  have hne : c ≠ actCell a := fun e => ha (e ▸ hc)
+  have hcc := h c hc
+  cases a <;> simp only [stepState, actCell] at * <;> simp [hne, hcc]
+
+/-- what thread `i` may rely on: its own actions stay inside the frame `F`; every OTHER thread's action is either
+    kept (`keep`) or touches no cell of the frame — whatever it is, a plain racy write included -/
+def junk (F : List Cell) (i : Nat) (x : Nat × Act) : Bool := x.1 != i && !F.contains (actCell x.2)
+
+theorem readsOf_drop_junk (F : List Cell) (i : Nat) : ∀ (tr : Trace) (σ τ : State), AgreeOn F σ τ →
+    (∀ x ∈ tr, x.1 = i → actCell x.2 ∈ F) →
+    readsOf i σ tr = readsOf i τ (tr.filter (fun x => !junk F i x))
+  | [], _, _, _, _ => rfl
+  | (j, a) :: tr, σ, τ, hag, hmine => by
+    have hrest : ∀ x ∈ tr, x.1 = i → actCell x.2 ∈ F := fun x hx => hmine x (by simp [hx])
+    by_cases hj : junk F i (j, a) = true
+    · -- dropped: another thread's action outside the frame
+      have hne : ¬ j = i := by
+        simp only [junk, Bool.and_eq_true, bne_iff_ne, ne_eq] at hj; exact hj.1
+      have hout : actCell a ∉ F := by
+        simp only [junk, Bool.and_eq_true] at hj
+        have h2 := hj.2
+        simpa using h2
+      have hj' : junk F i (j, a) = true := by simp [junk, hne, hout]
+      simp only [List.filter_cons, hj', Bool.not_true, readsOf, hne, if_false]
+      exact readsOf_drop_junk F i tr (stepState σ a) τ (step_outside F σ τ a hag hout) hrest
+    · have hj' : junk F i (j, a) = false := by simpa using hj
+      simp only [List.filter_cons, hj', Bool.not_false, if_true, readsOf]
+      have hag' := step_agreeOn F σ τ a hag
+      by_cases hji : j = i
+      · have hin : actCell a ∈ F := hmine (j, a) (by simp) hji
+        simp only [hji, if_true]
+        rw [obs_agreeOn F σ τ a hag hin, readsOf_drop_junk F i tr _ _ hag' hrest]
+      · simp only [hji, if_false]
+        exact readsOf_drop_junk F i tr _ _ hag' hrest
+
+theorem proj_drop_junk (F : List Cell) (i : Nat) : ∀ tr : Trace, proj i (tr.filter (fun x => !junk F i x)) = proj i tr
+  | [] => rfl
+  | (j, a) :: tr => by
+    have ih := proj_drop_junk F i tr
+    by_cases hj : junk F i (j, a) = true
+    · have hne : ¬ j = i := by
+        simp only [junk, Bool.and_eq_true, bne_iff_ne, ne_eq] at hj; exact hj.1
+      simp [hj, proj, hne, ih]
+    · have hj' : junk F i (j, a) = false := by simpa using hj
+      by_cases hji : j = i
+      · subst hji; simp [hj', proj, ih]
+      · simp [hj', proj, hji, ih]
+
 /-! ## reading the generated table -/
 
 inductive RowClass | cache | cacheLoad | inertCas | lazyDecl | lazyCtor | outParam | plain | unread | appendSpare | appendClipped
-  | cacheFirstWins | lastWriterWins
+  | cacheFirstWins | lastWriterWins | payloadEscape
   deriving DecidableEq, Repr
 
 /-- entry points whose reference parameters are caller-owned, per-call output (`schemas` of
@@ -430,7 +509,10 @@ def rowClass : SharedWrite → RowClass
   | .unrecognised _ => .unread
   | .write _ _ _ _ root sync _ via =>
     match sync with
-    | .syncMap | .once => .cache
+    | .once => .cache
+    | .syncMapLoadOrStore => .cacheFirstWins
+    | .syncMap => .lastWriterWins         -- `Store` into a process-wide sync.Map: what a later `Load` returns depends on who
+                                          -- stored last (the seeded `compiledPatterns.Store(pattern, cp)`)
     | .mutexIfAbsent => .cacheFirstWins   -- load-or-publish: every caller goes on with the first published value
     | .mutex => .lastWriterWins           -- unconditional store under a lock: no data race, but what a reader gets back
                                           -- depends on who stored last (F-C15-2 before its repair)
@@ -438,6 +520,7 @@ def rowClass : SharedWrite → RowClass
     | .syncMapCasNil => .inertCas    -- `CompareAndSwap(k, nil, v)`: stores nothing for an absent key
     | .nilGuardInit => .lazyDecl
     | .nilGuardCtor => .lazyCtor
+    | .payloadEscape => .payloadEscape
     | .appendSpare => .appendSpare   -- aliasing through spare capacity: see `appendActs`
     | .appendClipped => .appendClipped
     | _ => if root = .param && outParamEntries.contains via then .outParam else .plain
@@ -446,7 +529,8 @@ def rowClass : SharedWrite → RowClass
     initialised (by its declaration / by the constructor), or per-call output; an `append` to a shared slice
     only when the slice is clipped to its length -/
 def rowOK (w : SharedWrite) : Bool :=
-  rowClass w != .plain && rowClass w != .unread && rowClass w != .appendSpare && rowClass w != .lastWriterWins
+  rowClass w != .plain && rowClass w != .unread && rowClass w != .appendSpare && rowClass w != .lastWriterWins &&
+  rowClass w != .payloadEscape
 
 def rowGlobal : SharedWrite → Option String
   | .write _ _ _ _ root _ g _ => if root = .global || root = .viaGlobal then some g else none
@@ -519,13 +603,21 @@ structure PerCallRow where
   name : String
   declared : Bool          -- the type exists in package openapi3
   inDocument : Bool        -- reachable through the fields of a document struct: then it would be SHARED
+  inGlobal : Bool          -- reachable from the type of a package-level variable (a process-wide cache of such objects)
   writes : Nat             -- writes to its fields in functions reachable from the concurrent entry points
   allocReachable : Bool    -- allocated (composite literal / new) in a reachable function: created inside the call
   allocSites : List String
   deriving DecidableEq, Repr
 
+/-- Types that DO end up in a package-level variable and are nevertheless written by reachable code: the writes
+    happen before the object is published. `theTypeInfo`: getTypeInfo fills `Fields` of the descriptor it has just
+    allocated, then publishes it under `typeInfosMutex` (first wins); nothing writes a descriptor found in the cache
+    (the translator is flow-insensitive and cannot tell the two apart — hence this explicit, checked exemption). -/
+def publishedAfterInit : List String := ["openapi3gen.theTypeInfo"]
+
 def perCallOK (r : PerCallRow) : Bool :=
-  r.declared && !r.inDocument && (r.writes == 0 || r.allocReachable)
+  r.declared && !r.inDocument && (!r.inGlobal || r.writes == 0 || publishedAfterInit.contains r.name) &&
+  (r.writes == 0 || r.allocReachable)
 
 def rowFn : SharedWrite → String
   | .write _ _ fn _ _ _ _ _ => fn
